@@ -61,6 +61,15 @@ def apply_edit(engine, ed: dict) -> None:
     elif t == "unload_rule":
         b = engine.rule_blocks[ed["b"] % len(engine.rule_blocks)]
         b.rules[ed["r"] % len(b.rules)].unload()  # public API: the rule stays in the block but is skipped
+    elif t == "swap_rules":
+        rules = engine.rule_blocks[ed["b"] % len(engine.rule_blocks)].rules  # a public list: order matters to First/Last/Highest
+        i, j = ed["r"] % len(rules), (ed["r"] + 1) % len(rules)
+        rules[i], rules[j] = rules[j], rules[i]
+    elif t == "swap_terms":
+        terms = var_of(engine, ed["var"]).terms
+        if len(terms) > 1:
+            i, j = ed["ti"] % len(terms), (ed["ti"] + 1) % len(terms)
+            terms[i], terms[j] = terms[j], terms[i]
     elif t == "resolution":
         d = engine.output_variables[ed["out"] % len(engine.output_variables)].defuzzifier
         if isinstance(d, fl.IntegralDefuzzifier):
@@ -117,6 +126,15 @@ def apply_edit_spec(spec: dict, ed: dict) -> None:
     elif t == "unload_rule":
         b = spec["blocks"][ed["b"] % len(spec["blocks"])]
         b["rules"][ed["r"] % len(b["rules"])]["unloaded"] = True
+    elif t == "swap_rules":
+        rules = spec["blocks"][ed["b"] % len(spec["blocks"])]["rules"]
+        i, j = ed["r"] % len(rules), (ed["r"] + 1) % len(rules)
+        rules[i], rules[j] = rules[j], rules[i]
+    elif t == "swap_terms":
+        terms = svar_of(spec, ed["var"])["terms"]
+        if len(terms) > 1:
+            i, j = ed["ti"] % len(terms), (ed["ti"] + 1) % len(terms)
+            terms[i], terms[j] = terms[j], terms[i]
     elif t == "resolution":
         d = spec["outputs"][ed["out"] % len(spec["outputs"])]["defuzzifier"]
         if d and "resolution" in d:
@@ -141,10 +159,16 @@ def gen_edit(rng, spec: dict) -> dict:
     """Draw an edit that applies to this spec."""
     for _ in range(20):
         t = rng.choice(["term_attr", "term_attr", "term_attr", "discrete_cell", "linear_coeff", "function_var", "range",
-                        "rule_weight", "resolution", "activation_param", "operator", "out_setting", "unload_rule"])
-        if t == "unload_rule":
+                        "rule_weight", "resolution", "activation_param", "operator", "out_setting", "unload_rule", "swap_rules",
+                        "swap_terms"])
+        if t in ("unload_rule", "swap_rules"):
             bi = rng.randrange(len(spec["blocks"]))
             return {"t": t, "b": bi, "r": rng.randrange(len(spec["blocks"][bi]["rules"]))}
+        if t == "swap_terms":
+            kind = rng.choice(["in", "out"])
+            vs = spec["inputs"] if kind == "in" else spec["outputs"]
+            vi = rng.randrange(len(vs))
+            return {"t": t, "var": [kind, vi], "ti": rng.randrange(8)}
         if t in ("term_attr", "discrete_cell", "linear_coeff", "function_var"):
             kind = rng.choice(["in", "out"])
             vs = spec["inputs"] if kind == "in" else spec["outputs"]
